@@ -112,7 +112,23 @@ func (ex *Exec) stmt(s ast.Stmt) {
 	case *ast.GoStmt:
 		ex.unsupported = "goroutine start at " + ex.P.pos(x)
 	case *ast.DeferStmt:
-		ex.unsupported = "defer at " + ex.P.pos(x)
+		if _, isLit := unparen(x.Call.Fun).(*ast.FuncLit); isLit || len(ex.loops) > 0 {
+			ex.unsupported = "defer of a closure / inside a loop at " + ex.P.pos(x)
+			return
+		}
+		// arguments are evaluated now, the call runs at function exit on the paths that passed here
+		d := &deferred{call: x.Call, regPC: ex.st.pc}
+		if se, ok := unparen(x.Call.Fun).(*ast.SelectorExpr); ok {
+			if _, isSel := ex.info.Selections[se]; isSel {
+				if fn, ok := ex.info.Uses[se.Sel].(*types.Func); ok {
+					d.args = append(d.args, ex.recvValue(se, fn.Type().(*types.Signature)))
+				}
+			}
+		}
+		for _, a := range x.Call.Args {
+			d.args = append(d.args, ex.expr(a))
+		}
+		ex.deferred = append(ex.deferred, d)
 	case *ast.SelectStmt:
 		ex.unsupported = "select at " + ex.P.pos(x)
 	default:
